@@ -58,11 +58,27 @@ OptEncSigs ==
   \cup {Sg(K("opq"), <<OptT("std", t), P("u16")>>, FALSE, UnitT) : t \in OptSlicePayload}
   \cup {Sg(K("opq"), <<>>, FALSE, OptT("std", t)) : t \in {StrT("utf8", FALSE), SliceT("u8", "imm"), SliceT("f64", "imm")}}
 
+\* callbacks (`impl Fn(A...) -> R` parameters): on the wire {data, run_callback(data, A...) -> R, destructor(data)}
+CbT(ps, r) == [k |-> "cb", ps |-> ps, r |-> r]
+CbArg == {P("u8"), P("i16"), P("u64"), P("f32"), P("f64"), P("bool"), P("char"), P("isize"), EnumT, StructT("Inner"), StructT("Mix")}
+CbRet == {UnitT, P("u8"), P("i64"), P("f64"), P("bool"), EnumT, StructT("Inner")}
+CbTypes == {CbT(<<a>>, UnitT) : a \in CbArg} \cup {CbT(<<>>, r) : r \in CbRet}
+           \cup {CbT(<<a, b>>, r) : a \in {P("u8"), P("f64"), StructT("Inner")}, b \in {P("i16"), EnumT}, r \in {P("bool"), StructT("Inner")}}
+           \cup {CbT(<<P("u8"), P("u64"), P("f32"), EnumT>>, P("i64"))}
+CbSigs ==
+  {Sg(K("opq"), <<P("u16"), c>>, FALSE, P("u32")) : c \in CbTypes}
+  \cup {Sg(K("none"), <<c, d>>, FALSE, UnitT) : c \in {CbT(<<P("u8")>>, P("u8"))}, d \in {CbT(<<>>, UnitT), CbT(<<EnumT>>, EnumT)}}
+  \cup {Sg(K("opqmut"), <<CbT(<<P("f64")>>, P("f64"))>>, TRUE, UnitT)}
+  \cup {Sg(K("opq"), <<CbT(<<P("u8")>>, P("bool")), StrT("utf8", FALSE)>>, FALSE, ResT(P("u8"), EnumT))}
+\* native signature of run_callback: the data pointer first, then the arguments in order
+CbShape(c) == [ret |-> Shape(c.r), params |-> <<PtrS>> \o [i \in 1..Len(c.ps) |-> Shape(c.ps[i])]]
+
 VARIABLES sig, stage
 vars == <<sig, stage>>
 CONSTANTS Mode, MaxParams
 Init == IF Mode = "cover" THEN sig \in CoverSigs /\ stage = "done"
         ELSE IF Mode = "optenc" THEN sig \in OptEncSigs /\ stage = "done"
+        ELSE IF Mode = "cb" THEN sig \in CbSigs /\ stage = "done"
         ELSE sig = Sg(K("none"), <<>>, FALSE, UnitT) /\ stage = "self"
 PickSelf == stage = "self" /\ \E sf \in SelfKinds : sig' = [sig EXCEPT !.self = sf] /\ stage' = "params"
 AddParam == stage = "params" /\ Len(sig.params) < MaxParams
@@ -98,7 +114,10 @@ StructLayouts == [n \in DOMAIN StructDefs |-> [p64 |-> Layout(Shape(StructT(n)),
 SA(sh) == IF sh.s = "void" THEN [size |-> 0, align |-> 1] ELSE [size |-> Size(sh, 64), align |-> Align(sh, 64)]
 Emit == Done => LET ss == SigShape(sig.self, sig.params, sig.write, sig.ret) IN
                 PrintT(<<"CASE", ToJson([sig |-> sig, shape |-> ss,
-                                         lay |-> [ret |-> SA(ss.ret), params |-> [i \in 1..Len(ss.params) |-> SA(ss.params[i])]]])>>)
+                                         lay |-> [ret |-> SA(ss.ret), params |-> [i \in 1..Len(ss.params) |-> SA(ss.params[i])]],
+                                         cbs |-> [i \in {j \in 1..Len(sig.params) : sig.params[j].k = "cb"} |-> CbShape(sig.params[i])]])>>)
+\* a callback object is three pointers on every target
+CbIsThreePointers == \A c \in CbTypes : Shape(c) = StructS(<<PtrS, PtrS, PtrS>>) /\ CbShape(c).params[1] = PtrS
 EmitDefs == (Mode = "cover" /\ sig = Sg(K("opq"), <<>>, FALSE, UnitT)) =>
                PrintT(<<"DEFS", ToJson([structs |-> StructDefs, layouts |-> StructLayouts,
                                         shapes |-> [n \in DOMAIN StructDefs |-> Shape(StructT(n))]])>>)
